@@ -33,11 +33,14 @@ pub fn classify(p: &GenProgram, kind: &str) -> String {
 }
 
 pub fn run(ctx: &mut Ctx) {
-    let total = ctx.sz(480, 9600);
+    let total = ctx.sz(16_000, 160_000);
     let opts = GenOpts::default();
+    // every third case is a small program (0-1 intermediate relations, 1-2 body atoms, few filters):
+    // complex programs mostly have empty answers, small ones exercise single operators with data flowing
+    let simple = GenOpts { max_idb: 1, max_body: 2, neg: 5, cmp: 10, agg: 10, arith: 10, union: 15, rec: 15, mutual: 0, bound_query: 10, ..GenOpts::default() };
     for k in ctx.cases(total) {
         let mut r = ctx.rng(k);
-        let p = gen_program(&mut r, &opts);
+        let p = gen_program(&mut r, if k % 3 == 0 { &simple } else { &opts });
         let model = match refdl::evaluate(&p.clauses, &p.edb, false) {
             Ok(m) => m,
             Err(e) => {
